@@ -129,10 +129,18 @@ def Elem.val? : Elem → Option Val
   | .ustr cps => if cps.all (· < 128) then some (.str (cps.map UInt8.ofNat)) else none
   | .bstr b => some (.str b)
 
+/-- the values of a list of items; `none` when one of them is text outside ASCII -/
+def valsOf? : List Elem → Option (List Val)
+  | [] => some []
+  | e :: es =>
+    match e.val?, valsOf? es with
+    | some v, some vs => some (v :: vs)
+    | _, _ => none
+
 /-- the value-level data the array holds (what the property calls "the source values") -/
 def NpArr.data? (a : NpArr) : Option Data :=
   if a.shape.isEmpty then (readElem a a.offset).val?.map Data.scalar
-  else (a.elems.mapM Elem.val?).map Data.array
+  else (valsOf? a.elems).map Data.array
 
 /-! ## `_basetype` on the array -/
 
@@ -156,6 +164,17 @@ def encWord : Elem → Except SrcErr Bytes
       else .error .unicode
   | .bstr b => .ok (lengthWord b.length ++ b ++ zeros (pad4 b.length))
   | .num _ => .error .typeError
+
+/-- `for word in block.flat:` … — the first word that cannot be converted ends the stream -/
+def encWords : List Elem → Except SrcErr Bytes
+  | [] => .ok []
+  | e :: es =>
+    match encWord e with
+    | .error x => .error x
+    | .ok w =>
+      match encWords es with
+      | .error x => .error x
+      | .ok ws => .ok (w ++ ws)
 
 /-- `for block in data`: the views along the first axis, each as its items in logical order -/
 def blocks (a : NpArr) : List Nat → List Int → List (List Elem)
@@ -182,7 +201,9 @@ def encArr (a : NpArr) : Except SrcErr Bytes :=
       .ok (hdr ++ blocksWire ty bl ++ zeros (pad4 (prod sh)))
     else if wireChar ty = 'S' then
       -- `for block in data: for word in block.flat:`
-      (bl.flatten.mapM encWord).map fun ws => hdr ++ ws.flatten
+      match encWords bl.flatten with
+      | .error x => .error x
+      | .ok ws => .ok (hdr ++ ws)
     else
       .ok (hdr ++ blocksWire ty bl)
 
@@ -251,10 +272,56 @@ def encCellsFlat : List Ty → List Cell → Except SrcErr Bytes
       | _, .error e => .error e
   | _, _ => .ok []
 
-/-- the same record BEFORE fix (`if isinstance(value, str):` only): a `bytes` value gets no length, the format
-    string has more `{}` than lengths -/
-def encCellFlatOld (ty : Ty) : Cell → Except SrcErr Bytes
-  | .bstr _ => .error .index
-  | c => encCellFlat ty c
+/-- the values of the cells of a record; `none` when one of them is text outside ASCII -/
+def cellVals? : List Cell → Option (List Val)
+  | [] => some []
+  | c :: cs =>
+    match c.val?, cellVals? cs with
+    | some v, some vs => some (v :: vs)
+    | _, _ => none
+
+/-! ## a dataset whose leaves are held as arrays -/
+
+/-- a served variable: a BaseType holding an array, a container of such, or a member described at value level
+    (sequences: their records are `Cell`s, see above) -/
+inductive Src where
+  | arr (a : NpArr)
+  | val (t : Tmpl) (d : Data)
+  | struct (cs : List Src)
+deriving Inhabited
+
+mutual
+/-- `dods(var)` on the source -/
+def encSrc : Src → Except SrcErr Bytes
+  | .arr a => encArr a
+  | .val t d => .ok (encImpl t d)
+  | .struct cs => encSrcs cs
+def encSrcs : List Src → Except SrcErr Bytes
+  | [] => .ok []
+  | c :: cs =>
+    match encSrc c with
+    | .error e => .error e
+    | .ok x =>
+      match encSrcs cs with
+      | .error e => .error e
+      | .ok y => .ok (x ++ y)
+end
+
+mutual
+/-- what the source declares and holds, at value level -/
+def Src.view? : Src → Option (Tmpl × Data)
+  | .arr a =>
+    match a.ty?, a.data? with
+    | some ty, some d => some (.base ty a.shape, d)
+    | _, _ => none
+  | .val t d => some (t, d)
+  | .struct cs => (Src.views? cs).map fun p => (.struct p.1, .tuple p.2)
+def Src.views? : List Src → Option (List Tmpl × List Data)
+  | [] => some ([], [])
+  | c :: cs =>
+    match c.view?, Src.views? cs with
+    | some p, some q => some (p.1 :: q.1, p.2 :: q.2)
+    | _, _ => none
+end
 
 end Pydap.Xdr
